@@ -77,7 +77,7 @@ def sstep (cap : Nat) (s : ASt) (t : Bool) : SOp → ASt
 
 /-- variant-like owners; `trk j` = alternative `j` carries a value -/
 def xstep (trk : Nat → Bool) (s : ASt) (t : Bool) : XOp → ASt
-  | .emplace j v | .emplaceCopy j v | .emplaceMove j v => s.put t (.alt j (if trk j then some v else none))
+  | .emplace j v | .emplaceCopy j v | .emplaceMove j v | .assignCopy j v | .assignMove j v => s.put t (.alt j (if trk j then some v else none))
   | .optAssignCopy v | .optAssignMove v => s.put t (.alt 1 (some v))
   | .reset => s.put t (.alt 0 none)
   | .cctor | .cassign => s.put t (s.get (!t))
